@@ -8,7 +8,7 @@ from scipy.linalg import norm
 
 # Local Imports
 from ..bodies import Earth
-from ..maths import fpe_equals, rot1, rot3
+from ..maths import fpe_equals, rot1, rot3, wrapAngle2Pi
 from . import isEccentric, isInclined
 from .anomaly import eccLong2MeanLong, meanLong2EccLong, meanLong2TrueAnom, trueAnom2MeanLong
 from .utils import (
@@ -124,24 +124,24 @@ def eci2coe(eci_state: ndarray, mu: float = Earth.mu) -> OrbitalElementTuple:
         raan = getRightAscension(n_unit_vec)
         argp = getArgumentPerigee(ecc_vec, n_unit_vec)
         true_anomaly = getTrueAnomaly(pos_vec, vel_vec, ecc_vec)
-        return sma, ecc, inc, raan, argp, true_anomaly
+        return sma, ecc, inc, wrapAngle2Pi(raan), wrapAngle2Pi(argp), wrapAngle2Pi(true_anomaly)
 
     if not inclined and eccentric:
         true_long_periapsis = getTrueLongitudePeriapsis(ecc_vec)
         true_anomaly = getTrueAnomaly(pos_vec, vel_vec, ecc_vec)
         # RAAN, Ω, is undefined
-        return sma, ecc, inc, 0.0, true_long_periapsis, true_anomaly
+        return sma, ecc, inc, 0.0, wrapAngle2Pi(true_long_periapsis), wrapAngle2Pi(true_anomaly)
 
     if inclined and not eccentric:
         raan = getRightAscension(n_unit_vec)
         arg_lat = getArgumentLatitude(pos_vec, n_unit_vec)
         # Arg. Perigee, ω, is undefined
-        return sma, ecc, inc, raan, 0.0, arg_lat
+        return sma, ecc, inc, wrapAngle2Pi(raan), 0.0, wrapAngle2Pi(arg_lat)
 
     # else:  # Circular and Equatorial
     true_longitude = getTrueLongitude(pos_vec)
     # RAAN, Ω, and Arg. Perigee, ω, are undefined
-    return sma, ecc, inc, 0.0, 0.0, true_longitude
+    return sma, ecc, inc, 0.0, 0.0, wrapAngle2Pi(true_longitude)
 
 
 def coe2eqe(
